@@ -151,7 +151,9 @@ def main(args):
     run = core.Run("C13", args.tier, "exploration", "./check C13 --tier " + args.tier)
     # E1 (proof part): the operator signature table, on the real functions, for every operator / arity / operand-kind tuple
     from vlib import pool
-    pool.run_targets(run, "contracts.typing", ["_type_check_operation", "positional"])
+    pool.run_targets(run, "contracts.typing", ["_type_check_operation", "positional", "dispatch_and_physical_types"])
+    run.function("compiler.front_end.type_check.{_type_check_expression,unbounded_expression_type_for_physical_type,_set_expression_type_from_physical_type_reference,_annotate_parameter_type}",
+                 "pyvc: every expression variety goes to exactly its checker, typed expressions are left alone; physical definitions map to integer / boolean (prelude Flag only) / enumeration named by the definition itself / opaque; array-typed parameters give one error")
     for ob in run.obligations:
         if ob.verdict == core.REFUTED and ob.name.startswith("positional[rule=passed-parameters"):
             ob.replay = replay_passed_parameters(ob.name)
